@@ -115,8 +115,17 @@ def observe(ctx, case, res, x, probes, want):
         ctx.violation("wrong-length/ended-early", case, outputs=k,
                       want=len(want))
         return False
-      ctx.count("ended-with-input" if len(want) == len(x)
-                else "ended-with-coefficient-stream")
+      if len(want) == len(x):
+        ctx.count("ended-with-input")
+        # the input ended: no coefficient needed to be read for a sample that
+        # does not exist (one read per OUTPUT sample)
+        for p in probes:
+          if p.pulls != k:
+            ctx.violation("coefficient-stream/read-after-the-input-ended",
+                          case, probe=p.name, pulls=p.pulls, outputs=k)
+            return False
+      else:
+        ctx.count("ended-with-coefficient-stream")
       return True
     except RuntimeError as exc:
       if "StopIteration" in str(exc) and k == len(want) and k < len(x):
